@@ -86,6 +86,8 @@ THEOREMS = [
     "Verif.C08.edit_step_wellformed",
     "Verif.C08.edit_program_wellformed",
     "Verif.C08.tracked_then_edited_wellformed",
+    "Verif.C08.refine_pixels_inside",
+    "Verif.C08.refine_positions_inside",
 ]
 RULE = (
     "exhaustive small scope: the linker on all peak layouts of <=3 frames x <=2 peaks on a 4-point coordinate grid "
@@ -119,6 +121,11 @@ RULE = (
     "time); seeded random programs of 1-6 such steps on 1-4 tracks (edge coordinates, calibrated and uncalibrated), each "
     "step and the whole program through the model; and every interpolate/split/merge/filter step of every editing "
     "program of the edit streams (the group the real code had before the step -> the group it had after it). "
+    "Centroid refinement without bias correction (model ops c08.refine / c08.moment): exhaustive small scope - every "
+    "one-line image of <=4 pixels with counts in {0,1,5}, every starting pixel, half widths 1 and 2, through the public "
+    "lk.refine_tracks_centroid(bias_correction=False) and through refine_peak_based_on_moment itself; seeded random integer "
+    "images (1-12 pixels x 1-10 lines, Poisson background, spots also on the first and last pixel row) with 1-3 hand-made "
+    "tracks (edge and half-pixel coordinates), widths 3-9 pixels, calibrated and uncalibrated. "
     "Non-trivial: a greedy/link case in which at least one link was made and at least one candidate was left "
     "unlinked (>=2 tracks); a window that is clipped by the image edge or lies strictly inside; a rectangle that "
     "removes some but not all detections."
@@ -1234,7 +1241,7 @@ def _resolve_spec(spec, group):
         return f"split:{int(f[1]) % n}:{f[2]}:{f[3]}"
     if f[0] == "merge":
         i, j = int(f[1]) % n, int(f[3]) % n
-        return f"merge:{i}:{int(f[2]) % len(group[i])}:{j}:{int(f[4]) % len(group[j])}"
+        return f"merge:{i}:{int(f[2]) % max(1, len(group[i]))}:{j}:{int(f[4]) % max(1, len(group[j]))}"
     return spec
 
 
@@ -1294,8 +1301,61 @@ def run_editops(case):
     return ans, ops
 
 
+EPS_MOMENT = 1e-7  # the documented default `eps` of refine_peak_based_on_moment
+
+
+def run_refine(case):
+    """centroid refinement without bias correction on hand-made tracks and integer images: the public
+    `lk.refine_tracks_centroid(group, track_width, bias_correction=False)` against `c08.refine`, and the anchored pixel
+    walk itself (`refine_peak_based_on_moment`, found by name, called by parameter name) against `c08.moment`"""
+    import warnings
+
+    lk = _lk()
+    img, ps = case["image"], pixel_size(case)
+    n, n_lines = len(img), len(img[0])
+    w = case["width_px"]
+    h = int(math.ceil(w)) // 2
+    cols = enc_listlist([[int(img[r][t]) for r in range(n)] for t in range(n_lines)])
+    ops = ["c08.validate 1/1 0/1 1/1 0/1"]
+    kymo = make_kymo(case)
+    g_cls = _classes()[0]
+    tracks = [make_track([q[0] for q in tr], [q[1] for q in tr], kymo, case["line_time"]) for tr in case["tracks"]]
+    if g_cls is None or any(t is None for t in tracks):
+        return [UNSEEN], ops
+    group = g_cls(tracks)
+    init = dump_group(group)
+    ans = [None]
+    out = {"init": init, "h": h}
+    try:
+        with warnings.catch_warnings():
+            warnings.simplefilter("ignore")
+            refined = lk.refine_tracks_centroid(group, track_width=w * ps, bias_correction=False)
+        out["tracks"] = dump_group(refined)
+        a = enc_group(out["tracks"])
+    except (ValueError, RuntimeError, IndexError) as e:
+        out["refused"] = a = errname(e)
+    ops.append(f"c08.refine {enc_rat(EPS_MOMENT)} {h} {n} {cols} {enc_group(init)}")
+    ans.append(a)
+    # the pixel walk itself, from the rounded points of the first track
+    f, _ = _find("refine_peak_based_on_moment")
+    pts = [(int(round(c)), int(t)) for t, c in case["tracks"][0] if 0 <= int(round(c)) < n]
+    if pts:
+        ops.append(f"c08.moment {enc_rat(EPS_MOMENT)} {h} {n} {cols} [{','.join(f'{c}:{t}' for c, t in pts)}]")
+        try:
+            ok, r = _call_named(
+                f, data=np.array(img, dtype=float), coordinates=np.array([c for c, _ in pts]), time_points=np.array([t for _, t in pts]),
+                half_kernel_size=h, bias_correction=False,
+            )
+            ans.append(enc_list([float(x) for x in r[0]], lambda x: enc_rat(float(x))) + " " + enc_list([int(round(float(x))) for x in r[2]]) if ok else UNSEEN)
+        except (ValueError, RuntimeError, IndexError) as e:
+            ans.append(errname(e))
+    ans[0] = "ok " + json.dumps(out)
+    return ans, ops
+
+
 RUNNERS = {
     "editops": run_editops,
+    "refine": run_refine,
     "greedy": run_greedy,
     "link": run_link,
     "sumwin": run_sumwin,
@@ -1440,7 +1500,15 @@ def agree(case, i, ia, ma):
         return abs(dec_float(it[3]) - d) <= 1e-12 * scale
     if op == "c08.frames":
         return ia == ma
-    if op in ("c08.edit", "c08.editprog", "c08.trackof"):
+    if op == "c08.moment":
+        if ia == ma:
+            return True
+        it, mt = ia.split(" "), ma.split(" ")
+        if len(it) != 2 or len(mt) != 2 or it[1] != mt[1]:
+            return False
+        a, m = dec_list(it[0], lambda x: float(dec_rat(x))), dec_list(mt[0], lambda x: float(dec_rat(x)))
+        return len(a) == len(m) and all(abs(u - v) <= 1e-9 * max(1.0, abs(u), abs(v)) for u, v in zip(a, m))
+    if op in ("c08.edit", "c08.editprog", "c08.trackof", "c08.refine"):
         if ia == ma:
             return True
         it, mt = ia.split(" "), ma.split(" ")
@@ -1678,6 +1746,32 @@ def oracle_edit(case, ia):
     return None
 
 
+def oracle_refine(case, ia):
+    """every track produced by refinement has strictly increasing line indices inside the kymograph and positions inside
+    the image; units; the photon count of a point is the window sum of the stated half width on the pixel containing it"""
+    if ia[0] == UNSEEN:
+        return None
+    if not ia[0].startswith("ok "):
+        return f"refinement raised {ia[0]}"
+    d = json.loads(ia[0][3:])
+    if "tracks" not in d:
+        return f"refinement of tracks inside the image raised {d.get('refused')}"
+    img, ps = case["image"], pixel_size(case)
+    where = "after refine_tracks_centroid(bias_correction=False):"
+    r = well_formed(d["tracks"], len(img), len(img[0]), ps, where) or units_ok(d["tracks"], ps, case["line_time"], where)
+    if r:
+        return r
+    if len(d["tracks"]) != len(d["init"]):
+        return f"well-formed: {where} {len(d['init'])} tracks went in, {len(d['tracks'])} came out"
+    for k, t in enumerate(d["tracks"]):
+        if not t["t"]:
+            return f"well-formed: {where} track {k} is empty"
+        r = counts_ok(t, k, img, [case["width_px"] * ps], d["h"], None, where)
+        if r:
+            return r
+    return None
+
+
 def oracle_editops(case, ia):
     """every track produced by interpolation, splitting, merging or filtering has strictly increasing integer scan-line
     indices inside the kymograph and positions inside the image; times and positions are indices times line time / pixel
@@ -1776,6 +1870,8 @@ def oracle(case, ia):
         return oracle_edit(case, ia)
     if k == "editops":
         return oracle_editops(case, ia)
+    if k == "refine":
+        return oracle_refine(case, ia)
     if ia and ia[0] == UNSEEN and k in ("sumwin", "units", "rect"):
         return None
     if k == "sumwin":
@@ -1844,6 +1940,8 @@ def nontrivial(case, ia):
         return ia[0].startswith("ok ") and len(json.loads(ia[0][3:])["steps"]) >= 2
     if k == "editops":
         return ia[0].startswith("ok ") and any("tracks" in r for r in json.loads(ia[0][3:])["results"])
+    if k == "refine":
+        return ia[0].startswith("ok ") and "tracks" in json.loads(ia[0][3:]) and any(v for row in case["image"] for v in row)
     return True
 
 
@@ -1907,6 +2005,13 @@ def shrink(case):
                     c["frames"] = c["frames"][:-1]
                 if c["frames"]:
                     yield c
+    elif k == "refine":
+        if len(case["tracks"]) > 1:
+            for i in range(len(case["tracks"])):
+                yield dict(case, tracks=case["tracks"][:i] + case["tracks"][i + 1 :])
+        for i, tr in enumerate(case["tracks"]):
+            if len(tr) > 1:
+                yield dict(case, tracks=case["tracks"][:i] + [tr[:-1]] + case["tracks"][i + 1 :])
     elif k == "editops":
         if len(case["program"]) > 1:
             for i in range(len(case["program"])):
@@ -2261,6 +2366,27 @@ def editops_specs(lens):
     return specs
 
 
+def gen_refine(rng):
+    n, n_lines = rng.randint(1, 12), rng.randint(1, 10)
+    bg = rng.choice([0, 0, 1, 3])
+    img = [[poisson(rng, bg) for _ in range(n_lines)] for _ in range(n)]
+    for _ in range(rng.randint(0, 3)):  # bright spots, also on the first and last pixel row
+        r0 = rng.choice([0, n - 1, rng.randint(0, n - 1)])
+        for t in range(n_lines):
+            if rng.chance(0.8):
+                r_ = min(max(r0 + rng.randint(-1, 1), 0), n - 1)
+                img[r_][t] += rng.randint(3, 40)
+    tracks = []
+    for _ in range(rng.randint(1, 3)):
+        lines = sorted(rng.sample(range(n_lines), rng.randint(1, min(n_lines, 5))))
+        tracks.append([[t, rng.choice([0.0, n - 1.0, -0.5, 0.5, n - 1.5]) if rng.chance(0.3) and n >= 2 else round(rng.uniform(-0.5, n - 0.51), 2)] for t in lines])
+    for tr in tracks:
+        for q in tr:
+            q[1] = min(max(q[1], -0.5), n - 0.51)
+    return {"op": "refine", "image": img, "line_time": rng.choice(LINE_TIMES), "pixel_size_um": rng.choice([None, None, 0.5, 0.25, 2.0]),
+            "tracks": tracks, "width_px": rng.choice([3, 3, 4, 5, 7, 9])}
+
+
 def gen_editops(rng):
     n_lines, n_pixels = rng.randint(2, 14), rng.randint(4, 12)
     lt = rng.choice(LINE_TIMES)
@@ -2397,6 +2523,20 @@ def cases(tier, rng):
                 specs += [f"filter:{ml}:{enc_rat(md)}" for ml in (1, 2, 3) for md in mds]
                 yield {"stream": "small-scope-editops", "op": "editops", "each": True, "line_time": lt, "pixel_size_um": None,
                        "n_lines": 4, "n_pixels": 5, "tracks": tr, "program": specs}
+    # ---- exhaustive small scope: the pixel walk of the centroid refinement (no bias correction): every one-line image of
+    #      <= 4 pixels with counts in {0, 1, 5}, every starting pixel, half widths 1 and 2
+    for n in (1, 2, 3, 4):
+        for vals in itertools.product((0, 1, 5), repeat=n):
+            for c0 in range(n):
+                for w in (3, 5):
+                    yield {"stream": "small-scope-refine", "op": "refine", "image": [[v] for v in vals], "line_time": 0.5,
+                           "pixel_size_um": None, "tracks": [[[0, float(c0)]]], "width_px": w}
+    r = rng.fork("c08-refine")
+    for i in range(300 if quick else 5000):
+        sub = r.fork(i)
+        c = gen_refine(sub)
+        c.update({"stream": "random-refine", "subseed": i})
+        yield c
     r = rng.fork("c08-editops")
     for i in range(400 if quick else 6000):
         sub = r.fork(i)
@@ -2525,6 +2665,20 @@ def extra_coverage(results):
                         if isinstance(t.get("samp"), list):
                             counts_sampled += len(t["t"])
             multi_cases += several
+    refine_pts = {"points": 0, "on first or last pixel row": 0, "moved by at least one pixel": 0, "walks compared (c08.moment)": 0}
+    for r in results:
+        c = r["case"]
+        if c["op"] == "refine" and r["impl"][0].startswith("ok "):
+            d = json.loads(r["impl"][0][3:])
+            n_ = len(c["image"])
+            for t0_, t1_ in zip(d["init"], d.get("tracks", [])):
+                it_ = dict(zip(t0_["t"], t0_["cidx"]))
+                for tt, cc in zip(t1_["t"], t1_["cidx"]):
+                    refine_pts["points"] += 1
+                    refine_pts["on first or last pixel row"] += pixel_of(cc) in (0, n_ - 1)
+                    if tt in it_ and abs(cc - it_[tt]) >= 1:
+                        refine_pts["moved by at least one pixel"] += 1
+            refine_pts["walks compared (c08.moment)"] += sum(1 for o, a in zip(r["ops"], r["impl"]) if o.startswith("c08.moment ") and a != UNSEEN)
     model_steps, lenient_filters, progs, trackofs = {}, 0, 0, 0
     for r in results:
         for o, a, m in zip(r["ops"], r["impl"], r["model"]):
@@ -2538,6 +2692,7 @@ def extra_coverage(results):
             elif o.startswith("c08.trackof ") and a != UNSEEN:
                 trackofs += 1
     return {
+        "refinement_without_bias_correction_compared_with_the_model": refine_pts,
         "edit_model_steps_compared_with_the_real_code": dict(sorted(model_steps.items())),
         "edit_model_whole_programs_compared": progs,
         "edit_model_filter_steps_that_hang_on_the_last_bits_compared_leniently": lenient_filters,
